@@ -1,94 +1,161 @@
-"""C03: are the temporaries of the local backend's uploads PRIVATE to each upload?  (replicat/backends/local.py, read from the AST)
+"""C03: are the temporaries of the local backend's uploads PRIVATE to each upload?  (replicat/backends/local.py)
 
 Two uploads of one object can be in flight at the same time (two workers of one snapshot that both saw `exists() == False` for a chunk
 that repeats in the stream; two commands on one directory).  `LocalUpload.lean` proves that every state a kill can leave shows the
 old or a complete new object PROVIDED the two uploads write through different temporaries (`concurrent_uploads_atomic`); with one
-shared temporary it exhibits a partial object (`shared_temporary_breaks_atomicity`).  This plug-in decides which of the two the code is:
+shared temporary it exhibits a partial object (`shared_temporary_breaks_atomicity`).  This plug-in decides which of the two the code is.
 
-  * `localTempPrivate` — the temporary returned by `_destination_temp` is derived (through any chain of assignments / calls /
-    f-strings) from a call of a unique-name generator (`NamedTemporaryFile`, `mkstemp`, `mkdtemp`, `TemporaryDirectory`, `uuid1`,
-    `uuid4`, `token_hex`, `token_bytes`, `token_urlsafe`, `urandom`, `getrandbits`), and that generator call is inside the function
-    (a fresh name per call, not a module constant);
-  * `localTempPerCall`  — `upload` and `upload_stream` each obtain their temporary from their own `self._destination_temp(name)`
-    call (nothing cached on the object or the class).
+`Local.upload` and `Local.upload_stream` are EXECUTED symbolically (tools/symflow.py: locals resolved through assignments, helper
+methods / functions / static methods inlined whatever they are called, branches and early exits normalised).  In the resulting event
+list the TEMPORARY of an upload is the source of its rename (`T.replace(dest)` / `T.rename(dest)` / `os.replace(T, dest)` /
+`os.rename` / `shutil.move`) — no method or variable name is looked at.
 
-Anything else (a name computed from the destination alone, from the pid, from a counter that is not recognised) yields `false`:
-`Properties/C03.lean` then stops compiling, and the harness's two-upload schedules look for the concrete failing input.
+  * `localTempPrivate` — in both functions there is such a rename, and the temporary of every rename is a FRESH name: a call of a
+    unique-name generator (`NamedTemporaryFile`, `mkstemp`, `mkdtemp`, `TemporaryDirectory`, `uuid1`, `uuid4`, `token_hex`,
+    `token_bytes`, `token_urlsafe`, `urandom`, `getrandbits`), or something built from one in a way that keeps it unique (`.name`,
+    `.hex`, element of the `mkstemp` pair, `Path(…)` / `str(…)` / `os.fspath(…)` of it, an f-string / `+` / `/` / `os.path.join` /
+    `joinpath` / `with_name` / `with_suffix` with a fresh component).  `.parent`, `.suffix`, … of a fresh name are NOT fresh, a
+    generator called at module / class level (a constant of the process) is not seen as a generator call at all.
+  * `localTempPerCall`  — every generator call inside such a temporary was made DURING this very execution of `upload` /
+    `upload_stream` (it is an event of the run, not a value stored on the object, the class or the module beforehand), outside any
+    helper that memoises (`functools.cache` / `lru_cache` / `cached_property` decorators).
+
+Anything else (a name computed from the destination alone, from the pid, from a counter that is not recognised, no rename at all) yields
+`false`: `Properties/C03.lean` then stops compiling, and the harness's two-upload schedules look for the concrete failing input.
 """
 import ast
 
+import symflow as sf
+
 GENERATORS = {'NamedTemporaryFile', 'mkstemp', 'mkdtemp', 'TemporaryDirectory', 'uuid1', 'uuid4', 'token_hex', 'token_bytes',
               'token_urlsafe', 'urandom', 'getrandbits'}
+RENAME_METHODS = {'replace', 'rename'}
+RENAME_GLOBALS = {'os.replace', 'os.rename', 'os.renames', 'shutil.move'}
+KEEP_ATTRS = {'name', 'hex', 'int', 'bytes', 'stem'}                      # of a fresh value: still unique
+KEEP_METHODS = {'hex', 'decode', 'encode', 'resolve', 'absolute', 'as_posix', 'lower', 'upper', 'expanduser', '__str__', '__fspath__'}
+BUILD_METHODS = {'joinpath', 'with_name', 'with_suffix', 'with_stem', 'format', 'join'}   # fresh argument (or fresh receiver for joinpath)
+WRAP_GLOBALS = {'pathlib.Path', 'pathlib.PurePath', 'pathlib.PosixPath', 'pathlib.WindowsPath', 'Path', 'str', 'bytes', 'repr', 'hex', 'int',
+                'os.fspath', 'os.fsdecode', 'os.fsencode', 'os.path.join', 'os.path.abspath', 'os.path.normpath', 'os.path.realpath',
+                'format'}
 
 
-def _callee(node):
-    f = node.func
-    return f.attr if isinstance(f, ast.Attribute) else (f.id if isinstance(f, ast.Name) else None)
+def _is_modvar(t):
+    return isinstance(t, tuple) and t and t[0] == 'modvar'
 
 
-def _has_generator(expr):
-    return any(isinstance(n, ast.Call) and _callee(n) in GENERATORS for n in ast.walk(expr))
+def _is_generator_call(t):
+    if not (isinstance(t, tuple) and t and t[0] == 'call'):
+        return False
+    f = t[1]
+    if f[0] == 'global':
+        return f[1].rsplit('.', 1)[-1] in GENERATORS
+    if f[0] == 'attr':
+        return f[2] in GENERATORS
+    return False
 
 
-def _names(expr):
-    return {n.id for n in ast.walk(expr) if isinstance(n, ast.Name)}
+def _fresh(t, depth=0):
+    """is the term a name that is unique to the generator call(s) it contains?"""
+    if not isinstance(t, tuple) or not t or depth > 40:
+        return False
+    k = t[0]
+    if _is_generator_call(t):
+        return True
+    if k == 'attr':
+        return t[2] in KEEP_ATTRS and _fresh(t[1], depth + 1)
+    if k == 'sub':
+        return sf.is_const(t[2], int) and _fresh(t[1], depth + 1)
+    if k == 'unpack':
+        return _fresh(t[1], depth + 1)
+    if k == 'call':
+        f, args = t[1], t[2]
+        kw = [v for _, v in t[3]]
+        if f[0] == 'global' and f[1] in WRAP_GLOBALS:
+            return any(_fresh(a, depth + 1) for a in list(args) + kw)
+        if f[0] == 'attr':
+            if f[2] in KEEP_METHODS:
+                return _fresh(f[1], depth + 1)
+            if f[2] in BUILD_METHODS:
+                return any(_fresh(a, depth + 1) for a in list(args) + kw) or (f[2] in ('joinpath', 'format') and _fresh(f[1], depth + 1))
+        return False
+    if k == 'binop':
+        return t[1] in ('Div', 'Add', 'Mod') and (_fresh(t[2], depth + 1) or _fresh(t[3], depth + 1))
+    if k == 'concat':
+        return any(_fresh(p, depth + 1) for p in t[1])
+    if k == 'fmt':
+        return _fresh(t[1], depth + 1)
+    if k == 'phi':
+        return _fresh(t[2], depth + 1) and _fresh(t[3], depth + 1)
+    if k == 'join':
+        return bool(t[2]) and all(_fresh(a, depth + 1) for a in t[2])
+    return False
 
 
-def _stmts(body):
-    """statements in source order, descending into compound statements but not into nested function definitions"""
-    for st in body:
-        yield st
-        if isinstance(st, (ast.FunctionDef, ast.AsyncFunctionDef, ast.ClassDef)):
+def _rename_source(ev):
+    """the term that is renamed by this call event, or None"""
+    if ev.kind != 'call':
+        return None
+    f = ev.callee
+    if f[0] == 'attr' and f[2] in RENAME_METHODS and len(ev.args) == 1 and not ev.kwargs:
+        return f[1]
+    if f[0] == 'global' and f[1] in RENAME_GLOBALS and len(ev.args) >= 1:
+        return ev.args[0]
+    if f[0] == 'global' and f[1] in RENAME_GLOBALS and 'src' in ev.kwargs:
+        return ev.kwargs['src']
+    return None
+
+
+def _memoised(interp, mod, ev):
+    """is the event inside an inlined helper that carries a caching decorator?"""
+    for c in ev.ctx:
+        if c[0] != 'inline' or len(c) < 3:
             continue
-        for fld in ('body', 'orelse', 'finalbody'):
-            sub = getattr(st, fld, None)
-            if isinstance(sub, list):
-                yield from _stmts(sub)
-        for h in getattr(st, 'handlers', []) or []:
-            yield from _stmts(h.body)
+        node = interp.methods.get(c[2]) or mod.funcs.get(c[2])
+        for d in (node.decorator_list if node is not None else []):
+            if 'cache' in ast.unparse(d).lower():
+                return True
+    return False
 
 
-def _targets(t):
-    if isinstance(t, ast.Name):
-        return [t.id]
-    if isinstance(t, (ast.Tuple, ast.List)):
-        return [x for e in t.elts for x in _targets(e)]
-    return []
+def analyse(source, cls='Local', functions=('upload', 'upload_stream')):
+    """-> (private, per_call, note)"""
+    mod = sf.Module(source)
+    if cls not in mod.classes:
+        return False, False, f'class {cls} not found'
+    private, per_call, notes = True, True, []
+    for nm in functions:
+        interp = sf.Interp(mod, cls)
+        try:
+            evs, _ = interp.run(nm)
+        except sf.TooBig:
+            evs = None
+        if evs is None:
+            return False, False, f'{cls}.{nm} not found / too large'
+        temps = [(e, _rename_source(e)) for e in evs]
+        temps = [(e, t) for e, t in temps if t is not None]
+        if not temps:
+            private = per_call = False
+            notes.append(f'{nm}: no rename of a temporary onto the destination')
+            continue
+        for e, t in temps:
+            if not _fresh(t):
+                private = False
+                notes.append(f'{nm}: temporary `{sf.show(t)[:80]}` is not derived from a unique-name generator')
+                continue
+            gens = [s for s in sf.subterms(t, stop=_is_modvar) if _is_generator_call(s)]
+            for g in gens:
+                made = [x for x in evs if x.kind == 'call' and x.value == g and x.seq < e.seq]
+                if not made or any(_memoised(interp, mod, x) for x in made):
+                    per_call = False
+                    notes.append(f'{nm}: `{sf.show(g)[:60]}` is not called anew by every upload')
+    if private and per_call:
+        return True, True, 'temporary derives from a unique-name generator'
+    return private, per_call, '; '.join(dict.fromkeys(notes))
 
 
 def section(ctx):
-    tree = ast.parse((ctx.REPO / 'replicat' / 'backends' / 'local.py').read_text())
-    dt = ctx.find_func(tree, 'Local', '_destination_temp')
-    private, why = False, '_destination_temp not found'
-    if dt is not None:
-        fresh = set()        # local names whose value derives from a unique-name generator called in this function
-        returned = None
-        for st in _stmts(dt.body):
-            if isinstance(st, (ast.Assign, ast.AnnAssign)) and st.value is not None:
-                tgts = st.targets if isinstance(st, ast.Assign) else [st.target]
-                if _has_generator(st.value) or (_names(st.value) & fresh):
-                    for t in tgts:
-                        fresh.update(_targets(t))
-            elif isinstance(st, (ast.With, ast.AsyncWith)):
-                for it in st.items:
-                    if it.optional_vars is not None and (_has_generator(it.context_expr) or (_names(it.context_expr) & fresh)):
-                        fresh.update(_targets(it.optional_vars))
-            elif isinstance(st, ast.Return) and st.value is not None:
-                returned = st.value
-        if returned is None:
-            why = '_destination_temp: no return value'
-        else:
-            temp = returned.elts[-1] if isinstance(returned, ast.Tuple) and returned.elts else returned
-            private = _has_generator(temp) or bool(_names(temp) & fresh)
-            why = ('temporary derives from a unique-name generator' if private
-                   else f'temporary `{ctx.unparse(temp)[:60]}` is not derived from a unique-name generator')
-    per_call = True
-    for nm in ('upload', 'upload_stream'):
-        fn = ctx.find_func(tree, 'Local', nm)
-        calls = [] if fn is None else [n for n in ast.walk(fn) if isinstance(n, ast.Call) and ctx.unparse(n.func) == 'self._destination_temp']
-        if len(calls) != 1 or [ctx.unparse(a) for a in calls[0].args] != ['name']:
-            per_call = False
-    ctx.notes['crash.localtemp'] = why + ('' if per_call else '; upload/upload_stream do not call self._destination_temp(name) exactly once')
+    private, per_call, why = analyse((ctx.REPO / 'replicat' / 'backends' / 'local.py').read_text())
+    ctx.notes['crash.localtemp'] = why
     ctx.emit('/-! ## backends/local.py: are upload temporaries private to each upload? (C03) -/')
     ctx.emit(f'def localTempPrivate : Bool := {"true" if private else "false"}')
     ctx.emit(f'def localTempPerCall : Bool := {"true" if per_call else "false"}')
